@@ -494,6 +494,12 @@ def judge(world, body, reply, raised, shape, exps, exp_log, info, got_log):
         v.append(("C02", "C02/reply-not-text", "%s: returned %r" % (ctx, reply)))
         return v
     objs = None
+    try:
+        reply.encode("utf-8")
+    except UnicodeEncodeError as ex:
+        # a JSON text is exchanged in UTF-8 (RFC 8259, 8.1): a reply holding a raw lone surrogate cannot be put on the wire at all
+        v.append(("C02", "C02/reply-not-encodable", "%s: reply %r cannot be encoded (%s)" % (ctx, reply, ex)))
+        return v
     if reply == "":
         objs = []
         got_shape = "empty"
